@@ -40,3 +40,15 @@ Definition adapt_interval (n : nat) : nat := (n / 10)%nat.
 Definition adapt_defined (n : nat) : bool := negb (adapt_interval n =? 0)%nat.
 (* a ZeroDivisionError is only acceptable where the model says the call is undefined *)
 Definition check_adapt_refusal (n : nat) (raised : bool) : bool := implb raised (negb (adapt_defined n)).
+
+(* several batched calls into the same directory: every call numbers its files from 0 again, so its files replace the
+   files of earlier calls with the same number; files with larger numbers survive *)
+Definition overlay {A} (newer older : list A) : list A := newer ++ skipn (length newer) older.
+Fixpoint batch_files {A} (finalized : bool) (k : nat) (calls : list (list A)) (files : list (list A)) : list (list A) :=
+  match calls with
+  | [] => files
+  | c :: r => batch_files finalized k r (overlay (batches finalized k c) files)
+  end.
+(* calls = the chains recorded by the successive sample(N_i, batch_size = k) calls; obs = the files at the end, in order *)
+Definition check_batch_files (finalized : bool) (k : nat) (calls : list (list Z)) (obs : list (list Z)) : bool :=
+  zll_eqb (batch_files finalized k calls []) obs.
